@@ -102,6 +102,7 @@ type reqIn struct {
 	Force bool   `json:"force,omitempty"`
 	Allow bool   `json:"allow,omitempty"`
 	Keep  bool   `json:"keep,omitempty"`
+	Ctx   string `json:"ctx,omitempty"` // caller's context: "" | cancelled | during | deadline (control, destroy)
 }
 
 func reqTerm(r reqIn) string {
@@ -132,6 +133,10 @@ func codeOf(errClass string) uint64 {
 		return 3
 	case "Internal":
 		return 4
+	case "Canceled":
+		return 6
+	case "DeadlineExceeded":
+		return 7
 	}
 	return 5
 }
@@ -144,8 +149,9 @@ func optSt(has bool, s string) string {
 }
 
 var openMsgs = map[string]bool{"transition starting": true, "workflow teardown started": true}
-var closeMsgs = map[string]bool{"transition completed successfully": true, "transition error": true,
-	"transition impossible": true, "environment teardown complete": true, "environment teardown finished with error": true}
+var closeMsgs = map[string]bool{"transition completed successfully": true,
+	"environment teardown complete": true, "environment teardown finished with error": true}
+var failMsgs = map[string]bool{"transition error": true, "transition impossible": true}
 
 func evKind(msg string) int {
 	if openMsgs[msg] {
@@ -153,6 +159,9 @@ func evKind(msg string) int {
 	}
 	if closeMsgs[msg] {
 		return 2
+	}
+	if failMsgs[msg] {
+		return 4 // the section of a TryTransition that returns an error ends
 	}
 	if msg == "reply" {
 		return 3 // harness-side record: the state a reply reported, at the instant the call returned
@@ -270,7 +279,7 @@ func (w *world) quiesce(from int, d time.Duration) {
 					switch evKind(it.Name) {
 					case 1:
 						depth++
-					case 2:
+					case 2, 4:
 						depth--
 					}
 				}
@@ -291,9 +300,9 @@ func (w *world) issue(env *environment.Environment, r reqIn, user string) reply 
 	id := env.Id()
 	switch r.Kind {
 	case "control":
-		return w.control(id.String(), r.Op, user)
+		return w.controlCtx(id.String(), r.Op, user, r.Ctx)
 	case "destroy":
-		return w.destroy(id.String(), r.Force, r.Allow, r.Keep, user)
+		return w.destroy(id.String(), r.Force, r.Allow, r.Keep, user, r.Ctx)
 	case "teardown":
 		return w.teardown(id, r.Force)
 	case "odc":
@@ -463,7 +472,19 @@ func dedup(xs []string) []string {
 	return out
 }
 
+// a quarter of the control / destroy requests come from a caller that gives up
+func withCtx(r *gen.Rand, q reqIn) reqIn {
+	if (q.Kind == "control" || q.Kind == "destroy") && r.Chance(1, 4) {
+		q.Ctx = r.Pick([]string{"cancelled", "during", "deadline"})
+	}
+	return q
+}
+
 func genReq(r *gen.Rand, s string, listed bool) reqIn {
+	return withCtx(r, genReq0(r, s, listed))
+}
+
+func genReq0(r *gen.Rand, s string, listed bool) reqIn {
 	x := r.Intn(100)
 	switch {
 	case x < 52 && len(legalOps[s]) > 0: // legal operation
@@ -1047,6 +1068,11 @@ func (w *world) genConc(r *gen.Rand) concIn {
 			in.Callers = append(in.Callers, reqIn{Kind: "destroy", Force: r.Chance(1, 2), Allow: r.Chance(1, 2)})
 		}
 	}
+	// callers that give up while they are held by the gate or queued on the mutex
+	in.Holder = withCtx(r, in.Holder)
+	for i := range in.Callers {
+		in.Callers[i] = withCtx(r, in.Callers[i])
+	}
 	if r.Chance(1, 4) {
 		f := relevantFaults(r, s.st, in.Callers[0])
 		// the gated probe must not be a failing one that is then skipped: keep it as is
@@ -1242,6 +1268,25 @@ func main() {
 		} {
 			cases = append(cases, wrap(w.caseConc(in)))
 		}
+		// 0c. what ControlEnvironment does must not depend on the caller's context: failing,
+		// illegal and successful transitions requested by callers that give up
+		cases = append(cases, wrap(w.caseSeq(seqIn{Create: "hook", Steps: []stepIn{
+			{Req: reqIn{Kind: "control", Op: 6}}, // DEPLOY, succeeds
+			{Req: reqIn{Kind: "control", Op: 3, Ctx: "deadline"}, Faults: faults{Bodies: []string{"CONFIGURE"}}}, // fails -> ERROR
+		}})))
+		cases = append(cases, wrap(w.caseSeq(seqIn{Create: "hook", Steps: []stepIn{
+			{Req: reqIn{Kind: "control", Op: 6}},
+			{Req: reqIn{Kind: "control", Op: 1, Ctx: "cancelled"}}, // START in DEPLOYED: illegal -> ERROR
+		}})))
+		cases = append(cases, wrap(w.caseSeq(seqIn{Create: "hook", Steps: []stepIn{
+			{Req: reqIn{Kind: "control", Op: 6}}, {Req: reqIn{Kind: "control", Op: 3}}, {Req: reqIn{Kind: "control", Op: 1}},
+			{Req: reqIn{Kind: "control", Op: 2, Ctx: "cancelled"}, Faults: faults{Hooks: []string{"leave_RUNNING"}}}, // STOP cancelled by a hook
+		}})))
+		cases = append(cases, wrap(w.caseConc(concIn{Pre: []int32{6}, Holder: reqIn{Kind: "control", Op: 3, Ctx: "during"},
+			Gate: "before_CONFIGURE", Callers: []reqIn{{Kind: "control", Op: 4, Ctx: "deadline"}},
+			Faults: faults{Hooks: []string{"leave_DEPLOYED"}}})))
+		cases = append(cases, wrap(w.caseConc(concIn{Pre: []int32{6, 3}, Holder: reqIn{Kind: "control", Op: 1, Ctx: "deadline"},
+			Gate: "enter_RUNNING", Callers: []reqIn{{Kind: "control", Op: 3, Ctx: "during"}, {Kind: "control", Op: 2}}})))
 		tPhase := time.Now()
 		// 1. exhaustive single events on a real Environment (6 states x 8 events x 6 outcomes)
 		fe := fsmEnv()
